@@ -19,7 +19,7 @@ REQUIRED = {"C12": {"forbidden-name-rejected": 100, "illegal-signature-rejected"
                     "alias-rejected": 3, "outside-statemachine-rejected": 3, "direct-call-rejected": 50,
                     "hier-accepted": 100, "hier-no-first": 30, "hier-multiple-first": 30, "hier-multiple-default": 30,
                     "hier-override-by-state": 50, "hier-override-by-nonstate": 20, "hier-diamond": 30,
-                    "state_names-checked": 100}}
+                    "state_names-checked": 100, "base-instantiated-first": 30}}
 ASSUMPTIONS = {"C12": ["'a StateMachine attribute' is read as hasattr(StateMachine, name); names that exist only as annotations are probed and reported, not judged",
                        "the position of an overridden state in state_names, and the order between sibling base classes, are not specified"]}
 
@@ -198,7 +198,7 @@ def gen_hier(rng):
                 members.append({"name": nm, "kind": rng.choice(["state", "timed"]), "first": rng.random() < p_first,
                                 "doc": rng.choice([None, f"{name}.{nm} doc", f"\n    {name}.{nm}\n      indented\n    "])})
         out.append({"name": name, "bases": bases, "members": members})
-    return {"mode": "hier", "shape": shape, "classes": out}
+    return {"mode": "hier", "shape": shape, "classes": out, "instantiate_bases": rng.random() < 0.5}
 
 
 def run_hier(acc, case, uid):
@@ -231,14 +231,31 @@ def run_hier(acc, case, uid):
         acc.violation("C12/hier-definition-raised", f"defining a well-formed hierarchy raised {e!r}", case, {})
         return
     final = built[case["classes"][-1]["name"]]
-    # effective members by Python's own attribute lookup order
-    eff = {}
-    for klass in final.__mro__:
-        c = spec_of.get(klass)
-        if c is None:
-            continue
-        for mb in c["members"]:
-            eff.setdefault(mb["name"], (klass, mb))
+
+    def effective(cls_):
+        # effective members by Python's own attribute lookup order
+        e = {}
+        for klass in cls_.__mro__:
+            c = spec_of.get(klass)
+            if c is None:
+                continue
+            for mb in c["members"]:
+                e.setdefault(mb["name"], (klass, mb))
+        return e
+    # valid base classes are instantiated first (a robot may use both a machine and a machine derived from it):
+    # what a base instance does must not leak into how the subclass is judged
+    if case.get("instantiate_bases"):
+        for c in case["classes"][:-1]:
+            be = effective(built[c["name"]])
+            bs = [mb for _, mb in be.values() if mb["kind"] in ("state", "timed", "default")]
+            if sum(1 for mb in bs if mb.get("first")) == 1 and sum(1 for mb in bs if mb["kind"] == "default") <= 1:
+                try:
+                    built[c["name"]]()
+                    acc.ev("base-instantiated-first")
+                except Exception as e:  # noqa
+                    acc.violation("C12/valid-machine-rejected", f"valid base machine {c['name']} raised {e!r}", case, {})
+                    return
+    eff = effective(final)
     states = {n: v for n, v in eff.items() if v[1]["kind"] in ("state", "timed", "default")}
     k = sum(1 for _, mb in states.values() if mb.get("first"))
     j = sum(1 for _, mb in states.values() if mb["kind"] == "default")
